@@ -36,7 +36,7 @@ claim('C12',
       "denominator positive, both parts well-formed in distinct blocks - hence canonical form is preserved.",
       TB + "mpq_mul/div/add/sub/canonicalize are GLUE proofs on value tokens over ASSUMED gcd/divexact/mul/add contracts (the result is the reduced "
       "fraction expressed through those uninterpreted functions, denominator positive, every aliasing). NOT covered: mpq_mul_2exp/div_2exp, mpq_set_d/set_f, "
-      "mpq_cmp*, mpq_equal. _mpz_realloc is used by contract (proved in unit mpz_realloc_int against the allocator model).")
+      "mpq_cmp*. mpq_equal IS proved (1 exactly when both parts agree in size and limb for limb). _mpz_realloc is used by contract (proved in unit mpz_realloc_int against the allocator model).")
 claim('C04',
       "For every function under contract: the representation invariant (allocation >= 1, |size| <= allocation, block of exactly ALLOC limbs, no "
       "leading zero limb at a ghost position) is a proved post-condition from ANY well-formed pre-state with ANY allocation (inductive over call "
@@ -90,10 +90,15 @@ claim('C17',
       "is decoded as a big-endian two's-complement byte count, limbs are reversed and byte-swapped exactly (unbounded, invariant-closed), and after a "
       "failed or truncated read at any point the function returns 0 with a well-formed destination. mpz_out_raw: byte image = 4-byte signed count + "
       "big-endian magnitude without leading zero bytes, every limb placed exactly; returns 0 iff the write fails; the scratch block is freed with its "
-      "exact size on both paths and nothing leaks.",
+      "exact size on both paths and nothing leaks. mpz_export with byte-sized words (size == 1) and EVERY nail count 0..7, both orders, unbounded operand length: the word count is "
+      "exact and word w holds exactly the k-bit field [wk, wk+k) of |z| (k = 8 - nail), fields straddling limbs and the zero-extended top word included, nothing outside the "
+      "count bytes is written. BOUNDED stand-in (not proof) for the rest of the parameter space: complete enumeration of size{1,2,3,4,5,8,9,16} x every nail x order x "
+      "endian x alignment over operands of 0..3 limbs from a five-letter limb alphabet - export against the bit-field definition, then import of the result.",
       TB + "fread/fwrite are stubs with the ISO C contract (any transfer count <= requested, arbitrary buffer contents). The byte-level round trip "
       "inp_raw(out_raw(x)) == x is the composition of the two limb-placement contracts (stated in DESIGN, not a separate machine-checked lemma). NOT "
-      "covered: mpz_export/import, out_str/inp_str for mpz/mpq/mpf, gmp_fprintf.")
+      "covered by proof: mpz_export for word sizes other than 1 (incl. the whole-limb fast paths), mpz_import, out_str/inp_str for mpz/mpq/mpf, gmp_fprintf. In the export units "
+      "the address idiom `(char *) data - (char *) NULL` is REWRITTEN to an integer cast (the one spot where the verified text differs from /repo, stated in the evidence).",
+      technique='contract-based proof (CBMC, inductive invariants) + bounded native enumeration of the export/import parameter space (labelled bounded)')
 
 claim('C06',
       "Power-of-two bases 2,4,...,256, unbounded in the operand length (inductive invariants, one unit per base, the real mp_bases table linked in): "
